@@ -1,4 +1,5 @@
 \* events (v10) as coded, every schedule
+\* measured (8 TLC workers shared over 3 runs): 1691776 distinct / 5475085 generated states, depth 25, 152.9s
 CONSTANTS NSubs = 1 NConn = 1 InitLen = 2 MaxLen = 4 MaxTag = 4 MaxReverts = 1 MaxL1 = 0 MaxPc = 2 MaxTx = 2 MaxGw = 0 MaxRecv = 0 MaxTicks = 0 MaxBack = 3 MaxGot = 6
   Ver = 10 Kinds <- KEvents StartAtL1 = 0 NoLag = FALSE QuietSub = FALSE ReorgPrio = FALSE TeeStage = FALSE Window = TRUE FixL1None = FALSE FixL1Order = FALSE BlockIds <- BidsSmall
 INIT Init
